@@ -29,6 +29,8 @@ pub struct CfgAccess {
     pub value: u32,
     /// Command register at the time of the access.
     pub command: u16,
+    /// BAR registers at the time of the access.
+    pub bars: [u32; 6],
 }
 
 #[derive(Clone, Debug)]
@@ -79,14 +81,14 @@ impl PciFunc {
     pub fn set_bar_address(&mut self, i: usize, addr: u64) {
         let (m, _) = self.bar_mask_and_flags(i);
         self.bar_regs[i] = (addr as u32) & m;
-        if let BarKind::Mem64 { .. } = self.bars[i] {
+        if let (BarKind::Mem64 { .. }, true) = (self.bars[i], i + 1 < 6) {
             let (mh, _) = self.bar_mask_and_flags(i + 1);
             self.bar_regs[i + 1] = ((addr >> 32) as u32) & mh;
         }
     }
     pub fn bar_address(&self, i: usize) -> u64 {
         match self.bars[i] {
-            BarKind::Mem64 { .. } => self.bar_regs[i] as u64 | (self.bar_regs[i + 1] as u64) << 32,
+            BarKind::Mem64 { .. } if i + 1 < 6 => self.bar_regs[i] as u64 | (self.bar_regs[i + 1] as u64) << 32,
             _ => self.bar_regs[i] as u64,
         }
     }
@@ -156,16 +158,16 @@ impl PciBusState {
             }
             *b -= 1;
         }
-        let (v, cmd) = match self.funcs.get(&df) {
-            Some(f) => (f.read(off), f.command),
-            None => (0xffff_ffff, 0),
+        let (v, cmd, bars) = match self.funcs.get(&df) {
+            Some(f) => (f.read(off), f.command, f.bar_regs),
+            None => (0xffff_ffff, 0, [0; 6]),
         };
-        self.log.push(CfgAccess { write: false, df, off, value: v, command: cmd });
+        self.log.push(CfgAccess { write: false, df, off, value: v, command: cmd, bars });
         v
     }
     pub fn write(&mut self, df: (u8, u8, u8), off: u8, v: u32) {
-        let cmd = self.funcs.get(&df).map(|f| f.command).unwrap_or(0);
-        self.log.push(CfgAccess { write: true, df, off, value: v, command: cmd });
+        let (cmd, bars) = self.funcs.get(&df).map(|f| (f.command, f.bar_regs)).unwrap_or((0, [0; 6]));
+        self.log.push(CfgAccess { write: true, df, off, value: v, command: cmd, bars });
         if let Some(f) = self.funcs.get_mut(&df) {
             f.write(off, v);
         }
